@@ -410,6 +410,12 @@ func (g *gm) call(c *ast.CallExpr) string {
 					return "(.lit [(\"chan\", (.str " + gmStr(g.f.src(c.Args[0])) + "))])"
 				}
 			}
+			// make(map[K]V[, n]): an empty map (a map is a record)
+			if len(c.Args) >= 1 {
+				if _, isMap := c.Args[0].(*ast.MapType); isMap {
+					return "(.lit [])"
+				}
+			}
 			// make([]T, n[, cap]) : only the length matters
 			if len(c.Args) >= 1 {
 				if _, isArr := c.Args[0].(*ast.ArrayType); isArr {
@@ -1116,6 +1122,10 @@ func genGoMiniAll() []*leanFile {
 		[]string{sv + "partition.go", sv + "api.go"},
 		map[string][]string{sv + "partition.go": {"partition.processPendingMessage", "partition.sendAck"}, sv + "api.go": {"apiServer.ensurePublishPreconditions"}},
 		[]string{sv + "partition.go", sv + "api.go"})})
+	out = append(out, &leanFile{name: "GoNatsMsg", raw: genGoMini("GoNatsMsg",
+		[]string{sv + "partition.go"},
+		map[string][]string{sv + "partition.go": {"natsToProtoMessage", "getMessage", "computeTick"}},
+		[]string{sv + "partition.go"})})
 	out = append(out, &leanFile{name: "GoFailover", raw: genGoMini("GoFailover",
 		[]string{sv + "failover.go", sv + "partition.go"},
 		map[string][]string{
